@@ -31,3 +31,7 @@ package update
 //@   loop 1 invariant bounds: -1 <= rangeindex && (rangeindex < len(price.Votes) || (rangeindex == -1 && len(price.Votes) == 0))
 //@   loop 1 invariant none: forall b int :: 0 <= b && b <= rangeindex ==> price.Votes[b] != pubkey
 //@   modifies mapof(c.list)
+
+//@ # ---------------------------------------------------------------- lock discipline (C25)
+//@ guarded Update.list by lock
+//@ # NOT declared: Update.dirty and Update.forDelete (same shape as in the commission module: block execution only)
